@@ -382,8 +382,13 @@ int assemble_all(assemblyline_t al, const char *str, int *dest) {
       }
     }
   }
-  // print machine code with chunk boundary fitting
+  // print machine code with chunk boundary fitting (a position that
+  // asm_set_offset() moved behind the buffer has nothing to show there yet)
   if (al->assembly_mode == CHUNK_FITTING && al->debug)
-    debug_with_chunksize(al->buffer, buf_pos, al->chunk_size);
+    debug_with_chunksize(al->buffer,
+                         buf_pos < (unsigned int)al->buffer_len
+                             ? buf_pos
+                             : (unsigned int)al->buffer_len,
+                         al->chunk_size);
   return (int)buf_pos;
 }
